@@ -2,6 +2,9 @@ package main
 
 import (
 	"fmt"
+	"os"
+	"runtime"
+	"runtime/pprof"
 	"time"
 )
 
@@ -9,8 +12,11 @@ func bench() {
 	fams, _ := familiesFor("quick")
 	al := fams[0]
 	hist := []string{"sub:0", "mine:pool", "fork:1:1", "ext:-"}
+	pf, _ := os.Create("/tmp/c06bench.prof")
+	pprof.StartCPUProfile(pf)
+	defer pprof.StopCPUProfile()
 	t0 := time.Now()
-	for i := 0; i < 20; i++ {
+	for i := 0; i < 120; i++ {
 		t1 := time.Now()
 		w := newWorld(&al)
 		t2 := time.Now()
@@ -24,9 +30,12 @@ func bench() {
 		t4 := time.Now()
 		w.close()
 		t5 := time.Now()
-		if true {
+		if i%10 == 9 {
+			var ms runtime.MemStats
+			runtime.ReadMemStats(&ms)
+			fmt.Println("heapAlloc MB", ms.HeapAlloc>>20, "heapSys MB", ms.HeapSys>>20, "numGC", ms.NumGC, "goroutines", runtime.NumGoroutine())
 			fmt.Println("new+prefix", t2.Sub(t1), "ops", t3.Sub(t2), "digest", t4.Sub(t3), "close", t5.Sub(t4), d[:8])
 		}
 	}
-	fmt.Println("avg", time.Since(t0)/20)
+	fmt.Println("avg", time.Since(t0)/120)
 }
